@@ -506,7 +506,7 @@ def sectionOk (tbl : List (String × Arity)) (keys : List Int) (p : String × Li
   p.2.isEmpty ||
     (retag p.1 != "moleculetype" && retag p.1 != "atoms" &&
       (match tbl.lookup (retag p.1) with
-       | some ar => p.2.all (interOk keys ar)
+       | some ar => ((ar == Arity.firstSkip) == (retag p.1 == "virtual_sitesn")) && p.2.all (interOk keys ar)
        | none => false))
 
 def atomOk (a : Atom) : Bool := !(a.mass != "" && a.charge == "")
